@@ -320,6 +320,11 @@ func c08Body(rng *rand.Rand) *c08Val {
 	if rng.Intn(4) != 0 {
 		add("b", c08Scalar(rng))
 	}
+	if rng.Intn(3) == 0 {
+		// coordinates for the geo-distance leg `@geo` (both or neither; always the point (1.0, 2.0))
+		add("gla", &c08Val{kind: "f", i: 4})
+		add("glo", &c08Val{kind: "f", i: 8})
+	}
 	if rng.Intn(3) != 0 {
 		n := rng.Intn(4)
 		l := &c08Val{kind: "a"}
@@ -579,6 +584,10 @@ func c08Group(rng *rand.Rand, depth int, labelP, special int, seed *c08Val) stri
 		}
 		items = append(items, c08Leaf(rng, idx, labelP, special, seed))
 	}
+	if rng.Intn(6) == 0 {
+		// a leg of another kind (geo distance): never hinted, carried in the residual's header
+		items = append(items, "@geo")
+	}
 	if depth > 0 && rng.Intn(3) == 0 {
 		items = append(items, c08Group(rng, depth-1, labelP, special, seed))
 		if rng.Intn(4) == 0 {
@@ -674,6 +683,15 @@ func c08Gen(rng *rand.Rand, tier string, w *bufio.Writer) {
 	fmt.Fprintln(w, "q created desc 0 0 2 9 2 |(a~eq~f64:4~,b~sin~s:a;b~)")
 	fmt.Fprintln(w, "q created desc 0 0 2 9 2 |(a~eq~f64:4~,b~sin~s:a;b~) m")
 	fmt.Fprintln(w, "q created asc 0 0 - 4 0 &(a~eq~i64:1~) m")
+	// corpus 5g: a geo-distance leg next to an indexed leg: it has to survive into the residual
+	fmt.Fprintln(w, "case 5g")
+	fixed("k1", 1, 0, 0, "{a:i1,gla:f4,glo:f8}", mk("a", I(1), "gla", Fq(4), "glo", Fq(8)))
+	fixed("k2", 2, 0, 0, "{a:i1}", mk("a", I(1)))
+	fixed("k3", 3, 0, 0, "{a:i2,gla:f4,glo:f8}", mk("a", I(2), "gla", Fq(4), "glo", Fq(8)))
+	fmt.Fprintln(w, "q key asc 0 0 - - 0 &(a~eq~i64:1~,@geo)")
+	fmt.Fprintln(w, "q key asc 0 0 - - 0 &(a~eq~i64:1~,@geo) m")
+	fmt.Fprintln(w, "q key asc 0 0 - - 0 |(a~eq~i64:2~,@geo)")
+	fmt.Fprintln(w, "q key desc 0 0 - - 0 &(|(a~eq~i64:1~,a~eq~i64:2~),@geo)")
 
 	// corpus 5h: a first query is held inside GetOrBuildBucket after BuildEquality, before DrainPending
 	// (forced schedule through the hook): saves and a delete arrive meanwhile, a second reader comes
@@ -865,6 +883,12 @@ func c08ParseGroup(s string) (*hydrapb.FilterGroup, bool) {
 				return nil, false
 			}
 			g.SubGroups = append(g.SubGroups, sub)
+			continue
+		}
+		if it == "@geo" {
+			// within 1 km of (1.0, 2.0): true exactly for the bodies that carry the coordinates gla / glo
+			g.GeoDistanceFilters = append(g.GeoDistanceFilters, &hydrapb.GeoDistanceFilter{LatFieldPath: "gla", LngFieldPath: "glo",
+				RefLatitude: 1.0, RefLongitude: 2.0, RadiusKm: 1, Mode: hydrapb.GeoDistanceMode_INSIDE})
 			continue
 		}
 		f, ok := c08ParseLeaf(it)
